@@ -18,6 +18,12 @@ trailing bytes) plus
   records are present: the locator then names the record's position; without ZIP64 records such bytes cannot
   be told from a prefix, so no layout has them).
 
+* `z64Place` — per entry (index in LOCAL order; entries beyond the list: the default), where the ZIP64 extended
+  information record of its CENTRAL header sits among the records of `centralExtra` (`pos` = number of records in
+  front of it; APPNOTE 4.5 does not order the records of an extra field) and whether it carries the 4-byte
+  "disk start number" (APPNOTE 4.5.3; the header's 16-bit disk field then holds 0xFFFF and the record exists
+  even when no other field needs it).
+
 `buildG` lays the bytes out; with the identity order and the defaults it is `build` (`buildG_ofLayout`).
 -/
 
@@ -29,16 +35,80 @@ def placed : List Entry → Nat → List (Entry × Nat)
   | [], _ => []
   | e :: es, start => (e, start + e.gapBefore.length) :: placed es (start + e.localBytes.length)
 
+/-- Where the ZIP64 extended information record of a central header sits, and its optional fourth field. -/
+structure Z64Place where
+  /-- number of records of `centralExtra` in front of the ZIP64 record (clamped to the number of complete
+  records; 0 = first, where `centralRecord` puts it) -/
+  pos : Nat := 0
+  /-- the "disk start number" field (always 0 in a single-file archive; any value is laid out) -/
+  disk : Option UInt32 := none
+  deriving Repr, DecidableEq
+
+/-- split a record sequence behind its first `n` complete records (fewer records, or a malformed tail: behind
+the last complete one) -/
+def splitRecords : Nat → Bytes → Bytes × Bytes
+  | 0, bs => ([], bs)
+  | n + 1, bs =>
+    match rd16 bs with
+    | none => ([], bs)
+    | some (id, r1) =>
+      match rd16 r1 with
+      | none => ([], bs)
+      | some (len, r2) =>
+        if len.toNat ≤ r2.length then
+          let ab := splitRecords n (r2.drop len.toNat)
+          (le16 id ++ (le16 len ++ (r2.take len.toNat ++ ab.1)), ab.2)
+        else ([], bs)
+
+def diskBytes : Option UInt32 → Bytes
+  | some d => le32 d
+  | none => []
+
+/-- the ZIP64 extended information record of the central header (APPNOTE 4.5.3) with the optional disk-start
+field: uncompressed size, compressed size, offset — only those whose 32-bit slot holds 0xFFFFFFFF — then the
+disk number — only when the 16-bit slot holds 0xFFFF -/
+def Entry.centralZ64G (e : Entry) (off : UInt64) (disk : Option UInt32) : Bytes :=
+  let zu := e.zU; let zc := e.zC; let zo := e.zO off
+  let n : Nat := (if zu then 8 else 0) + (if zc then 8 else 0) + (if zo then 8 else 0) + (diskBytes disk).length
+  if n = 0 then [] else
+    le16 1 ++ (le16 (UInt16.ofNat n) ++ ((if zu then le64 e.usize else []) ++
+    ((if zc then le64 e.csize else []) ++ ((if zo then le64 off else []) ++ diskBytes disk))))
+
+/-- the whole extra field of the central record: the ZIP64 record behind the first `pl.pos` foreign records -/
+def Entry.centralExtraAllG (e : Entry) (off : UInt64) (pl : Z64Place) : Bytes :=
+  (splitRecords pl.pos e.centralExtra).1 ++ (e.centralZ64G off pl.disk ++ (splitRecords pl.pos e.centralExtra).2)
+
+/-- central directory header (APPNOTE 4.3.12) with the ZIP64 record placed by `pl` -/
+def centralRecordG (e : Entry) (off : UInt64) (pl : Z64Place) : Bytes :=
+  le32 sigCentral ++ (le16 e.madeBy ++ (le16 e.versionNeeded ++ (le16 e.flagsOut ++ (le16 e.method ++
+  (le16 e.time ++ (le16 e.date ++ (le32 e.crc ++
+  (le32 (if e.zC then 0xFFFFFFFF else lo32 e.csize) ++
+  (le32 (if e.zU then 0xFFFFFFFF else lo32 e.usize) ++
+  (le16 (UInt16.ofNat e.name.length) ++ (le16 (UInt16.ofNat (e.centralExtraAllG off pl).length) ++
+  (le16 (UInt16.ofNat e.comment.length) ++ (le16 (if pl.disk.isSome then 0xFFFF else 0) ++
+  (le16 e.internalAttrs ++ (le32 e.externalAttrs ++
+  (le32 (if e.zO off then 0xFFFFFFFF else lo32 off) ++
+  (e.name ++ (e.centralExtraAllG off pl ++ e.comment))))))))))))))))))
+
+/-- what a reader must report for such a record: `viewEntry`, the extra data being the record's whole extra
+field as laid out -/
+def viewEntryG (e : Entry) (off pre chs : Nat) (pl : Z64Place) : FileData :=
+  { viewEntry e off pre chs with extraField := e.centralExtraAllG (UInt64.ofNat off) pl }
+
+/-- an entry of the directory: the entry, the offset of its local header, the placement of its ZIP64 record -/
+abbrev Listed := (Entry × Nat) × Z64Place
+
 /-- central records of a list of placed entries -/
-def centralBytesP : List (Entry × Nat) → Bytes
+def centralBytesP : List Listed → Bytes
   | [] => []
-  | p :: ps => centralRecord p.1 (UInt64.ofNat p.2) ++ centralBytesP ps
+  | p :: ps => centralRecordG p.1.1 (UInt64.ofNat p.1.2) p.2 ++ centralBytesP ps
 
 /-- what a reader must report for a directory that lists the placed entries `ps` from file position `chs` on -/
-def viewListP (pre : Nat) : List (Entry × Nat) → Nat → List FileData
+def viewListP (pre : Nat) : List Listed → Nat → List FileData
   | [], _ => []
   | p :: ps, chs =>
-    viewEntry p.1 p.2 pre chs :: viewListP pre ps (chs + (centralRecord p.1 (UInt64.ofNat p.2)).length)
+    viewEntryG p.1.1 p.1.2 pre chs p.2 ::
+      viewListP pre ps (chs + (centralRecordG p.1.1 (UInt64.ofNat p.1.2) p.2).length)
 
 structure LayoutG where
   base : Layout
@@ -46,13 +116,21 @@ structure LayoutG where
   eocdSaturate : Bool := true
   end64Ext : Bytes := []
   end64Gap : Bytes := []
+  z64Place : List Z64Place := []
   deriving Repr
 
 namespace LayoutG
 
-/-- the directory's list: entry and local-header offset for every index of `cdOrder` (an index beyond the
-entry list names nothing) -/
-def cdList (g : LayoutG) : List (Entry × Nat) := g.cdOrder.filterMap fun i => (placed g.base.entries 0)[i]?
+/-- the placement of the central ZIP64 record of entry `i` (local order); the default beyond the list -/
+def placeOf (g : LayoutG) (i : Nat) : Z64Place :=
+  match g.z64Place[i]? with
+  | some p => p
+  | none => {}
+
+/-- the directory's list: entry, local-header offset and ZIP64 placement for every index of `cdOrder` (an index
+beyond the entry list names nothing) -/
+def cdList (g : LayoutG) : List Listed :=
+  g.cdOrder.filterMap fun i => ((placed g.base.entries 0)[i]?).map fun p => (p, g.placeOf i)
 
 def cdBytes (g : LayoutG) : Bytes := centralBytesP g.cdList
 def cdSize (g : LayoutG) : Nat := g.cdBytes.length
@@ -107,9 +185,12 @@ def viewOfG (g : LayoutG) : List FileData := viewListP g.base.pre.length g.cdLis
 differences").  The reader theorems hold without it. -/
 def LayoutG.IsPermutation (g : LayoutG) : Prop := g.cdOrder.Perm (List.range g.base.entries.length)
 
-/-- every value fits its field, and the whole file stays below 2^63 bytes -/
+/-- every value fits its field (the extra field of every listed central record its 16-bit length: with the
+disk-start field the ZIP64 record may have 32 bytes, 4 more than `Entry.Fits` reserves), and the whole file
+stays below 2^63 bytes -/
 def LayoutG.Fits (g : LayoutG) : Prop :=
-  (∀ e ∈ g.base.entries, e.Fits) ∧ g.base.comment.length ≤ 0xFFFF ∧ (buildG g).length < 2 ^ 63
+  (∀ e ∈ g.base.entries, e.Fits) ∧ g.base.comment.length ≤ 0xFFFF ∧ (buildG g).length < 2 ^ 63 ∧
+  (∀ q ∈ g.cdList, (q.1.1.centralExtraAllG (UInt64.ofNat q.1.2) q.2).length ≤ 0xFFFF)
 
 instance (g : LayoutG) : Decidable g.Fits := by unfold LayoutG.Fits; infer_instance
 
